@@ -946,7 +946,9 @@ def strategies():
                unique_by=lambda p: key(p[0])).map(lambda l: ["dict", [list(p) for p in l]]),
       st.lists(st.tuples(text, children), max_size=3, unique_by=lambda p: key(p[0])).map(
         lambda l: ["list", [S("O"), ["dict", [list(p) for p in l]]]]))
-  wires = st.recursive(st.one_of(wsimple, deep.filter(lambda d: d[2] != "tuple")), wextend, max_leaves=6)
+  # (Node's own marshal.dumps must accept the action: ['O', {'k': ..}] costs two levels per nesting)
+  wdeep = deep.filter(lambda d: d[2] == "list" or (d[2] == "dict" and d[1] <= 400))
+  wires = st.recursive(st.one_of(wsimple, wdeep), wextend, max_leaves=6)
   coltypes = st.one_of(st.just("Any"), st.just("Any"), st.sampled_from(COLTYPES))
   return st.one_of(
     st.tuples(st.just("formula"), tops, coltypes),
@@ -1008,6 +1010,11 @@ def main():
       cases.append({"src": "enum", "id": "script " + " ".join(inp["script"]), "spec": json.dumps(inp, sort_keys=True),
                     "calls": calls, "rts": [], "local_exc": ""})
       continue
+    if inp["mode"] == "cell":
+      try:
+        marshal.dumps(to_wire(inp["value"]), 2)
+      except ValueError:
+        continue        # Node could not send this action either (nested deeper than marshal allows)
     if local is None or local.stale:
       local = Local()
     k += 1
